@@ -11,15 +11,23 @@ from common import Check, lean_batch, tb, tt, tlist
 
 TRUSTED = ['Lean 4.33.0 kernel (+ leanchecker in the thorough tier)',
            'axioms: propext, Classical.choice, Quot.sound only (audited per theorem)',
-           'harness/extract.py (pins), harness/c15.py + iod.py (generators, independent string-file reader, comparison), Drv.lean protocol parsing',
+           'harness/extract.py (pins), harness/c15.py + iod.py (generators, file reading with plain open() + iteration, comparison), Drv.lean protocol parsing',
            'compiled driver peldrv agrees with the kernel reading of the same definitions']
 ASSUME = ["CPython's % operator is modelled by pyFmt for the subset used by the shipped string files; theorems treat it opaquely",
-          'the regex that reads the string file (LINE_RE) is not modelled: synthetic files and an independent reader tie it to the abstract list',
+          'the string-file LOADER is modelled (PelModel/Regex.lean: backtracking matcher + LINE_RE as an AST; Loaders.lean: the line loop and '
+          '_add_trace_string) and proved to read back printed files (string_file_roundtrip: the greedy (.*) cuts at the LAST ||); that the AST '
+          "denotes the repo's pattern string and that the matcher has CPython's semantics is established by correspondence only: Lean loader vs "
+          'TraceStringFile(path).trace_strings on the shipped files, the synthetic files and the adversarial stream; the harness has no reader of '
+          'its own any more, every string list used for decoding is loaded by the model from the file lines',
+          'a hash of more than 4300 digits (int() raises) is answered unsupported by the model: counted as skipped, never as agreement',
+          'files are read with open(path) + iteration exactly as the repo does (text mode, universal newlines, locale encoding = UTF-8 here)',
           "str(bytes,'ascii','ignore') is modelled as dropping bytes >= 0x80"]
 RULE = ('cases = (string file, trace bytes): abstract header + well-formed entries (lengths {0,1,3,4,5,1023,1024}, both tags, hashes '
         'exact/partial/unknown) + trailing bytes (none, short, corrupted entry: oversized / wrong trailer / truncated), declared '
         'size smaller/equal/larger than the data, truncation at every offset of a small buffer, random bytes; non-trivial = a '
-        'header and at least one entry are decoded; distinct by (string file, bytes)')
+        'header and at least one entry are decoded; distinct by (string file, bytes). Loader cases = string files (shipped, synthetic, '
+        'adversarial: handcrafted line variants, small files with character-level mutations, whole shipped files with every line mutated, '
+        'CRLF / CR endings, missing final newline); non-trivial = both loaders return a non-empty list; distinct by file content')
 
 
 def enc_entry(e):
@@ -43,12 +51,10 @@ def run(tier, seed):
     tmp = tempfile.mkdtemp(prefix='c15_')
     try:
         sfiles = []
+        loader_files = []
         for name, (_, sf) in iod.drawer_files().items():
-            mine = iod.read_string_file(sf)
             theirs = [(t.hash_value, t.message_format, t.location) for t in tr.TraceStringFile(sf).trace_strings]
-            ck.case(key=('strings', name, len(mine)), sample={'string_file': name, 'strings': len(mine)})
-            if mine != theirs:
-                ck.disagree('independent reader and TraceStringFile disagree on ' + name, {'file': name, 'mine': len(mine), 'theirs': len(theirs)})
+            loader_files.append(('shipped ' + name, sf))
             sfiles.append((name, sf, theirs))
         fmts = ['I> value = %u', 'x=%x X=%X', '%d %d %d %d %d', '%d %d %d %d %d %d', 'no args', '100%%', '%02u:%02u', '%.4X|%08X', '%c%c',
                 'bad %q', 'E> %s', '%5d|%-5d|', 'tail %']
@@ -60,12 +66,20 @@ def run(tier, seed):
                 strs.append((h, rng.choice(fmts), 'file%d.cpp(%d)' % (rng.randrange(9), rng.randrange(999))))
             path = os.path.join(tmp, 'strings%d' % t)
             iod.write_string_file(path, strs)
+            loader_files.append(('synth%d' % t, path))
             sfiles.append(('synth%d' % t, path, strs))
+        # ---- the loader itself: Lean model vs TraceStringFile(path).trace_strings, field by field
+        df = iod.drawer_files()
+        loader_files += iod.adversarial_files(rng, 'strs', tmp, 1500 if thorough else 150, 24 if thorough else 4, [df['mex'][1], df['nimitz'][1]])
+        ck.count('loader files with a non-empty list', iod.run_loader_stream(ck, 'strs', loader_files))
+        # ---- and the patterns themselves, one line at a time: None-ness and groups() of fullmatch
+        ck.count('lines matched by a pattern', iod.run_pattern_stream(ck, (6,), rng, 6000 if thorough else 600, {6: iod.STR_LINES[:8]}))
 
         reqs, meta = [], []
         for sid, (name, path, strs) in enumerate(sfiles):
-            reqs.append('defstr ' + iod.tok_strs(strs))
-            meta.append(None)
+            # the list the model decodes with is the one the LEAN loader reads from the file lines (strs only steers the generators)
+            reqs.append('defstrfile ' + iod.tok_lines(iod.file_lines(path)))
+            meta.append(('def', name))
             hashes = [s[0] for s in strs]
             for _ in range((200 if thorough else 40) if 'synth' not in name else (60 if thorough else 20)):
                 es = []
@@ -124,7 +138,9 @@ def run(tier, seed):
                 meta.append(('raw', name, path, data))
         replies = lean_batch(reqs)
         for m, r in zip(meta, replies):
-            if m is None:
+            if m[0] == 'def':
+                if not r.ok:
+                    ck.disagree('the model declines to load a string file the decode cases need', {'op': 'load-strs', 'case': m[1], 'reply': r.raw[:60]})
                 continue
             if not r.ok:
                 ck.skip(r.raw[:40])
